@@ -132,6 +132,21 @@ CHECKS = {
          "Trusted: the probe instrumentation and the attribution of a block to 'computes with implicit ints' / 'folded constant' (the two recorded systemic findings); blocks outside those classes "
          "are checked strictly.",
          "DESIGN.md 6.C10", "E1"),
+ "C03": ("translation_validation",
+         "bounded exhaustive enumeration of designs and inputs; the emitted SystemVerilog is executed by an own interpreter of the emitted subset and compared with the PyMTL simulation and the IR reference; driver map per bit",
+         "About 1140 designs -- all translatable members of the E2 families (access-shape products over Bits / struct / nested struct / list / struct-with-list carriers, hierarchy, nets, "
+         "registers), ~5700 (more in thorough) typed expression / statement blocks (all operators, casts, zext/sext/trunc/concat/reduce, conditionals, variable indices, slices, fields, "
+         "loops incl. descending / strided, temporaries), struct ports of five shapes moved by connections, 2-D interface arrays, interfaces holding port arrays, arrays of parameterised "
+         "sub-components -- are translated by the real VerilogTranslationPass; the text is parsed and simulated for every input vector / sequence and every output port is compared each step.",
+         "Trusted base: vt/svparse.py + vt/svsim.py (IEEE 1800 clause 11 sizing, two-state, unsigned) -- no Verilog simulator exists in the sandbox; it is calibrated by three-way agreement with "
+         "PyMTL and vt/irref.py. Syntactic validity is decided for the emitted subset only.",
+         "DESIGN.md 6.C03", "E1 E2 E3"),
+ "C12": ("translation_validation",
+         "same enumeration and interpreter as C03 through YosysTranslationPass; ports driven / read through their flattened leaves using the layout specification",
+         "The C03 designs through the Yosys backend. Struct, list and interface ports are driven and observed leaf by leaf (p__field, p__i, ifc__i__j__port), the packed value being sliced / "
+         "re-assembled with the independent layout; every variable bit must have one driver.",
+         "As C03. Two systemic findings on struct-typed signals and one on heterogeneous component arrays are recorded as known findings (signatures keyed by the struct-usage class of the design).",
+         "DESIGN.md 6.C12", "E1 E2 E3"),
 }
 
 NOT_YET = {}
@@ -140,6 +155,8 @@ ENGINES = [
   dict(name="E1", path="vt/explore.py", kind_free_text="explicit-state / stateless exploration library: choice-point DFS, linear extensions, BFS by history over the real transition function",
        serves_properties=[]),
   dict(name="E2", path="vt/ir.py vt/irgen.py vt/irref.py vt/dut.py", kind_free_text="design IR, bounded design-family generators, pymtl3 emitter, independent reference evaluator, pass-group driver",
+       serves_properties=[]),
+  dict(name="E3", path="vt/svparse.py vt/svsim.py vt/trcheck.py", kind_free_text="parser and two-state simulator for the SystemVerilog / Verilog subset the two backends emit (IEEE 1800 expression sizing), driver map, translation harness",
        serves_properties=[]),
   dict(name="E4", path="vt/fifo.py", kind_free_text="small independent reference models (FIFO list spec, memory, ISA interpreter, VCD reader, struct layout)",
        serves_properties=[]),
